@@ -1606,7 +1606,7 @@ func TestVerif_C13_exhaustive(t *testing.T) {
 	if c13Replay(t, rec, e) {
 		return
 	}
-	rec.Require("reload-between-selections", "reload-inside-selection", "reload-ok", "reload-failed", "dual", "v4", "v6", "badgen", "v6x", "dualx", "dualalt", "refused", "overlapped-request-refused", "reload-empty-family", "empty-set-installed")
+	rec.Require("reload-between-selections", "reload-inside-selection", "reload-ok", "reload-failed", "dual", "v4", "v6", "badgen", "v6x", "dualx", "dualalt", "refused", "overlapped-request-refused", "reload-empty-family", "empty-set-installed", "resent-after-schedule")
 	all := []string{"new", "missing", "garbage"}
 	two := []string{"new", "missing"}
 	scens := c13Scens(c13ReqKinds, 1, 2, 1, all, false)
@@ -1643,7 +1643,7 @@ func TestVerif_C13_reduced(t *testing.T) {
 	if c13Replay(t, rec, e) {
 		return
 	}
-	rec.Require("reload-between-selections", "reload-ok", "reload-failed", "k=3", "m=2", "badgen", "v6x", "dualx", "dualalt", "refused", "overlapped-request-refused", "reload-empty-family", "empty-set-installed")
+	rec.Require("reload-between-selections", "reload-ok", "reload-failed", "k=3", "m=2", "badgen", "v6x", "dualx", "dualalt", "refused", "overlapped-request-refused", "reload-empty-family", "empty-set-installed", "resent-after-schedule")
 	all := []string{"new", "missing", "garbage"}
 	two := []string{"new", "missing"}
 	var scens []c13Scen
@@ -1701,7 +1701,7 @@ func TestVerif_C13_random(t *testing.T) {
 	if c13Replay(t, rec, e) {
 		return
 	}
-	rec.Require("reload-between-selections", "reload-ok", "reload-failed", "dual", "badgen", "v6x", "dualx", "dualalt", "refused", "reload-empty-family", "empty-set-installed")
+	rec.Require("reload-between-selections", "reload-ok", "reload-failed", "dual", "badgen", "v6x", "dualx", "dualalt", "refused", "reload-empty-family", "empty-set-installed", "resent-after-schedule", "resend-inside-schedule")
 	rapid.Check(t, func(rt *rapid.T) {
 		c13Check(rt, rec, e, c13Gen(rt))
 	})
